@@ -483,7 +483,7 @@ func (cx *c18Ctx) ruleR6() {
 	}
 	r.Count("r6_functions_removing_looked_up_entries", nFn)
 	r.Count("r6_entry_sources_judged", nSrc)
-	r.Require(nSrc >= 2, "floor: fewer than 2 id-lookups feeding a relay-entry removal found in internal/agent (have %d)", nSrc)
+	r.Require(nSrc >= 1, "floor: no id-lookup feeding a relay-entry removal found in internal/agent")
 }
 
 func c18ExtractOf(tuple ssa.Value, idx int) ssa.Value {
